@@ -60,7 +60,8 @@ STORES = {'shm': 'cache_mem 8 MB\nmemory_cache_shared on\nmaximum_object_size_in
           'rock': 'cache_mem 0\n'}                                                                      # rock only: every hit goes through the disker
 
 
-QUICK_BOUND2 = {('purge', 'off', 'shm'), ('read-during-write', 'on', 'shm'), ('refresh', 'off', 'shm')}
+QUICK_BOUND2 = {('purge', 'off', 'shm')}
+THOROUGH_BOUND2_1PAGE = {('purge', 'off', 'shm'), ('read-during-write', 'on', 'shm'), ('refresh', 'off', 'shm')}
 
 
 THOROUGH_BOUND3 = {('purge', 'off', 'shm'), ('read-during-write', 'on', 'shm')}
@@ -77,11 +78,11 @@ def cases_for(tier):
                     for st in ('shm', 'rock'):
                         if fr == 'chunked' and sc not in ('read-during-write', 'two-writers'):
                             continue                      # framing only matters while the response is being received
-                        if quick and fr == 'chunked' and (cf == 'off' or sz == '3pages'):
+                        if quick and fr == 'chunked' and (cf == 'off' or sz != 'slot+1'):
                             continue
-                        if quick and sz == '3pages' and (st, sc, cf) not in (('shm', 'read-during-write', 'on'), ('shm', 'purge', 'off')):
+                        if quick and sz == '3pages':
                             continue
-                        if quick and sz == '1page' and st == 'rock':
+                        if quick and sz == '1page' and (st == 'rock' or sc in ('store-read', 'two-writers')):
                             continue
                         if quick:
                             bound = 2 if (sz == 'slot+1' and fr == 'cl' and (sc, cf, st) in QUICK_BOUND2) else 1
@@ -90,7 +91,7 @@ def cases_for(tier):
                             if sz == 'slot+1':
                                 bound = 3 if (fr == 'cl' and key in THOROUGH_BOUND3) else 2
                             elif sz == '1page':
-                                bound = 2 if (fr == 'cl' and key in QUICK_BOUND2) else 1
+                                bound = 2 if (fr == 'cl' and key in THOROUGH_BOUND2_1PAGE) else 1
                             else:
                                 bound = 1
                         out.append({'scenario': sc, 'size': sz, 'framing': fr, 'cf': cf, 'store': st, 'bound': bound})
